@@ -46,7 +46,9 @@ class C10(Prop):
             'with the round trip observed); byte strings to 400 bytes with every leading-zero count; all-1 and '
             '1-prefixed strings; one invalid character at every position; valid Base58Check strings with every '
             'single substitution (58 x len), deletion, insertion, transposition, and every single-bit flip / byte deletion at the byte level (quick 208 strings, thorough 1600); all 256 version bytes; decoded lengths 0..6 '
-            'with a checksum that is correct under every reading of the slices; non-trivial = non-empty argument')
+            'with a checksum that is correct under every reading of the slices; call histories (every ordered pair of '
+            'encode/decode/CBase58Data/str/from_bytes calls incl. calls that raised, same / equal-not-identical / one-place-'
+            'different arguments) and one instance through every ordered pair of observers; non-trivial = non-empty argument')
 
     def setup(self):
         ensure_repo_on_path()
@@ -75,6 +77,8 @@ class C10(Prop):
         yield from mine(self.gen_invalid(crng, big))
         yield from mine(self.gen_versions(crng, big))
         yield from mine(self.gen_short(crng, big))
+        yield from mine(self.gen_hist(crng, big))
+        yield from mine(self.gen_obj(crng, big))
         # the edit neighbourhoods are large: partition by valid string, not by case
         for j, (v, p) in enumerate(self.valid_items(crng, big)):
             if j % nshards != shard:
@@ -163,6 +167,56 @@ class C10(Prop):
                 k = bytes(rng.randrange(256) for _ in range(L))
                 yield mk('c10.check', tx(enc(k)), tag='short-random')
 
+    # ---- state left behind by an earlier event (call after call in one process; observer pairs on one object)
+    FLUSH = ('e:00', 'd:31')      # neutral first steps: one successful call of each direction
+
+    def gen_hist(self, rng, big):
+        """c10.seq: an entry point right after an earlier call that succeeded / raised part-way / had other
+        arguments; the same arguments again (identical object `=`, or an equal but not identical one) and
+        arguments that differ from the earlier ones in one place only (a memo keyed on too little)."""
+        def good():
+            v, n = rng.choice([0, 5, 111, 128, 255]), rng.choice([0, 1, 20, 32])
+            vs = bytes([v]) + bytes(rng.randrange(256) for _ in range(n))
+            return vs, self.B.encode(vs + H4(vs))
+        for _ in range(12 if big else 3):
+            vs, s = good()
+            vs2, s2 = good()
+            raw = bytes(rng.randrange(256) for _ in range(rng.choice([1, 7, 25])))
+            last = s[:-1] + ALPHA[(ALPHA.index(s[-1]) + 1) % 58]
+            first = ALPHA[(ALPHA.index(s[0]) + 1) % 58] + s[1:]
+            bad_mid = s[:len(s) // 2] + 'l' + s[len(s) // 2 + 1:]      # valid prefix, then an invalid character
+            bad_end = s[:-1] + '0'
+            steps = ['e:' + raw.hex(), 'e:' + vs.hex(), 'e:' + (b'\x00' + raw).hex(), 'e:' + raw[:-1].hex(),
+                     'd:' + tx(s), 'd:' + tx(last), 'd:' + tx(first), 'd:' + tx(s + '1'), 'd:' + tx('1' + s), 'd:' + tx(bad_mid),
+                     'd:' + tx(bad_end), 'd:' + tx(''), 'd:' + tx(s2),
+                     'c:' + tx(s), 'c:' + tx(last), 'c:' + tx(first), 'c:' + tx(bad_mid), 'c:' + tx(s2), 'c:' + tx('3y6uvf'), 'c:' + tx(''),
+                     's:%d:%s' % (vs[0], vs[1:].hex()), 's:%d:%s' % (vs[0] ^ 1, vs[1:].hex()), 's:256:' + vs[1:].hex(),
+                     's:%d:%s' % (vs[0], (vs[1:] + b'\x00').hex()), 'f:-1:00', 'f:%d:%s' % (vs[0], vs[1:].hex())]
+            for a in steps:
+                for b in steps:
+                    yield mk('c10.seq', *self.FLUSH, a, b, tag='hist-pair')
+                # the same call twice: identical argument object, and an equal but not identical one
+                yield mk('c10.seq', *self.FLUSH, a, '=' + a, a, tag='hist-same')
+            for _ in range(400 if big else 60):
+                seq = [rng.choice(steps) for _ in range(rng.randint(3, 7))]
+                seq = [('=' + x) if (k and x in seq[:k] and rng.random() < 0.4) else x for k, x in enumerate(seq)]
+                yield mk('c10.seq', *self.FLUSH, *seq, tag='hist-random')
+
+    OBS = 'sbtvreh'
+
+    def gen_obj(self, rng, big):
+        """c10.obj: one CBase58Data instance seen through every ordered pair of observers (and longer orders)"""
+        for _ in range(6 if big else 2):
+            v, n = rng.choice([0, 5, 111, 255]), rng.choice([0, 1, 20, 33])
+            p = bytes(rng.randrange(256) for _ in range(n))
+            s = self.B.encode(bytes([v]) + p + H4(bytes([v]) + p))
+            orders = [a + b for a in self.OBS for b in self.OBS if a != b]
+            orders += [a + b + a for a in self.OBS for b in self.OBS if a != b]
+            orders += [''.join(rng.sample(self.OBS, len(self.OBS))) for _ in range(300 if big else 30)]
+            for o in orders:
+                yield mk('c10.obj', 'new', tx(s), '', o, tag='obj')
+                yield mk('c10.obj', 'fb', v, p.hex(), o, tag='obj')
+
     def valid_items(self, rng, big):
         n = 1600 if big else 208
         out = []
@@ -233,12 +287,62 @@ class C10(Prop):
                 d = B.CBase58Data.from_bytes(bytes.fromhex(a[1]), int(a[0]))
                 return 'ok:%d,%s' % (d.nVersion, bytes(d).hex())
             return guarded(f)
+        if op == 'c10.seq':
+            return ' ; '.join(self.run_seq(a))
+        if op == 'c10.obj':
+            def f():
+                d = (B.CBase58Data(bytes.fromhex(a[1]).decode('utf-8')) if a[0] == 'new'
+                     else B.CBase58Data.from_bytes(bytes.fromhex(a[2]), int(a[1])))
+                obs = {'s': lambda: str(d), 'b': lambda: bytes(d).hex(), 't': lambda: d.to_bytes().hex(),
+                       'v': lambda: str(d.nVersion), 'r': lambda: repr(d), 'e': lambda: str(d == bytes(d)),
+                       'h': lambda: str(hash(d) == hash(bytes(d)))}
+                return '/'.join(guarded(obs[o]) for o in a[3])
+            return guarded(f)
         if op == 'c10.roundtrip':
             def f():
                 d = B.CBase58Data(str(B.CBase58Data.from_bytes(bytes.fromhex(a[1]), int(a[0]))))
                 return 'ok:%d,%s' % (d.nVersion, bytes(d).hex())
             return guarded(f)
         raise ValueError(op)
+
+    def run_seq(self, steps):
+        """the steps of a history, executed in order in this process.  An argument object is re-used identically for
+        a step marked `=` and rebuilt (equal, not identical: bytes(bytearray(..)), ''.join(..)) otherwise."""
+        objs = {}
+        outs = []
+        single = {'e': 'c10.encode', 'd': 'c10.decode', 'c': 'c10.check', 's': 'c10.str', 'f': 'c10.frombytes'}
+        B = self.B
+        for st in steps:
+            same = st.startswith('=')
+            k, *ar = st.lstrip('=').split(':')
+            key = (k in 'dc', ar[-1])
+            if same and key in objs:
+                o = objs[key]
+            else:
+                raw = bytes.fromhex(ar[-1])
+                o = ''.join(list(raw.decode('utf-8'))) if k in 'dc' else bytes(bytearray(raw))
+                objs[key] = o
+            if k == 'e':
+                def f():
+                    t = B.encode(o)
+                    return t + '|' + guarded(lambda: 'ok:' + B.decode(t).hex())
+            elif k == 'd':
+                def f():
+                    b = B.decode(o)
+                    return 'ok:' + b.hex() + '|' + B.encode(b)
+            elif k == 'c':
+                def f():
+                    d = B.CBase58Data(o)
+                    return 'ok:%d,%s' % (d.nVersion, bytes(d).hex())
+            elif k == 's':
+                def f():
+                    return 'ok:' + str(B.CBase58Data.from_bytes(o, int(str(int(ar[0])))))
+            else:
+                def f():
+                    d = B.CBase58Data.from_bytes(o, int(str(int(ar[0]))))
+                    return 'ok:%d,%s' % (d.nVersion, bytes(d).hex())
+            outs.append(guarded(f))
+        return outs
 
     def nontrivial(self, c, io):
         return any(x not in ('', '0') for x in c['args'])
